@@ -257,6 +257,34 @@ def replay_path(args):
                     return bad("ended-handle-yields", len(path), {"handle": hid, "observed": repr(r)})
                 if s.counts() != before:
                     return bad("ended-handle-advances-underlying", len(path), {"handle": hid, "expected": before, "observed": s.counts()})
+                # ... nor through a tool that skips or collects (islice with a start, nlargest), nor through a fresh
+                # borrow of the ended handle (its __anext__ / asend / athrow)
+                L_ = s.L
+                via = [("islice-with-start", lambda h=s.h[hid]: L_.list(L_.islice(h, 1, 2))), ("nlargest", lambda h=s.h[hid]: L_.nlargest(h, 1))]
+                if ukind != "sync" and hasattr(s.h[hid], "__anext__"):
+                    def reborrow(h=s.h[hid]):
+                        async def go():
+                            nb = L_.borrow(h)
+                            out_ = []
+                            try:
+                                out_.append(await nb.__anext__())
+                            except StopAsyncIteration:
+                                pass
+                            for meth_, arg_ in (("asend", (None,)), ("athrow", (BlockError(),))):
+                                if hasattr(nb, meth_):
+                                    try:
+                                        out_.append(await getattr(nb, meth_)(*arg_))
+                                    except (StopAsyncIteration, BlockError):
+                                        pass
+                            return out_
+                        return go()
+                    via.append(("re-borrow", reborrow))
+                for what, mk in via:
+                    before_log = len(s.rec.log)
+                    r = s.run(mk())
+                    if len(s.rec.log) != before_log or (r[0] == "done" and any(isinstance(x, Item) for x in r[1])):
+                        return bad(f"ended-handle-reaches-underlying-through-{what}", len(path),
+                                   {"handle": hid, "observed": {"result": repr(r)[:120], "underlying_events": s.rec.log[before_log:]}})
                 for meth in ("asend", "athrow"):
                     if (hid in closed or last_t["shut"][hid - 1]) and hasattr(s.h[hid], meth):
                         arg = (None,) if meth == "asend" else (BlockError(),)
